@@ -760,6 +760,38 @@ def b_snap_driver(S):
         raisers={"report_snapping_loop(loops, allowed_loops=allowed_loops)": ("(decide (loops > allowed_loops))", "RecursionError")})
 
 
+def b_validation_pass(S):
+    """the two nested loops of `Validation.run_validation` (rows x validators, `if ignore_geom: break`, the hand-over of geometry /
+    errors / ignore flag from one validator to the next, the collection of errors and geometries); `_validate` is a parameter"""
+    src = S[TVAL]
+    q = "Validation.run_validation"
+    fn = find_func(ast.parse(src), q)
+    calls = [n for n in ast.walk(fn) if isinstance(n, ast.Call) and ast.unparse(n.func) == "self._validate"]
+    if len(calls) != 1:
+        raise Untranslatable("expected one call of self._validate")
+    kw = {k.arg: ast.unparse(k.value) for k in calls[0].keywords}
+    for need, val in (("geom", "geom"), ("validator", "validator"), ("current_errors", "current_errors"), ("allow_fix", "self.allow_fix"), ("idx", "idx"),
+                      ("trace_candidates", "trace_candidates"), ("area", "self.area")):
+        if kw.get(need) != val:
+            raise Untranslatable(f"_validate is called with {need}={kw.get(need)}")
+    vtxt = ast.get_source_segment(src, calls[0])
+    # the trace-candidate cache: computed once per row, only for non-empty lines
+    tc = [n for n in ast.walk(fn) if isinstance(n, ast.Assign) and ast.unparse(n.targets[0]) == "trace_candidates" and isinstance(n.value, ast.IfExp)]
+    if len(tc) != 1 or ast.unparse(tc[0].value.test) != "trace_candidates is None" or ast.unparse(tc[0].value.orelse) != "trace_candidates":
+        raise Untranslatable("trace candidate cache changed")
+    tctxt = ast.get_source_segment(src, tc[0].value)
+    C = {"self.traces.geometry.values": "geoms", vtxt: "(validate_ validator geom current_errors idx)",
+         "isinstance(geom, LineString) and not geom.is_empty": "(is_line geom)", tctxt: "()", "None": "()"}
+    T = {"self.traces.geometry.values": "List G", vtxt: "G × (List String) × Bool", "geom": "G", "current_errors": "List String", "ignore_geom": "Bool",
+         "isinstance(geom, LineString) and not geom.is_empty": "Bool", tctxt: "Unit", "trace_candidates": "Unit", "None": "Unit",
+         "all_errors": "List (List String)", "all_geoms": "List G", "validators": "List V"}
+    return translate_function(
+        src, q, "validation_pass", {"geoms": "List G", "validators": "List V"}, "List (List String) × List G", C, types=T,
+        extra_params=[("{G}", "Type"), ("{V}", "Type"), ("validate_", "V → G → List String → Nat → G × (List String) × Bool"), ("is_line", "G → Bool")],
+        slice_from="all_errors: List[List[str]] = []", slice_to="assert len(all_errors) == len(all_geoms)", returns_var="(all_errors, all_geoms)",
+        default_num="Nat", join="tuple")
+
+
 def b_validate_step(S):
     """`Validation._validate`: the per-(row, validator) decision; what the validator answers and what its fix returns are parameters"""
     C = {
@@ -1240,6 +1272,7 @@ ITEMS: List[Item] = [
     Item("IntersectionFilter", GENERAL, ["C02"], b_intersection_filter),
     Item("ValidatorTable", TVALS, ["C09", "C13", "C02"], b_validator_table, extra_modules=[TVAL]),
     Item("ValidateStep", TVAL, ["C09", "C13"], b_validate_step),
+    Item("ValidationPass", TVAL, ["C09", "C13"], b_validation_pass),
     Item("UnderlapValidator", TVALS, ["C10", "C13"], b_underlap_validator),
     Item("AreaValidator", TVALS, ["C10"], b_area_validator),
     Item("ValidationDefaults", TVAL, ["C10", "C03", "C16"], b_validation_defaults),
